@@ -302,7 +302,12 @@ class ConvexPolygon(GeoBody):
 
     def __eq__(self, other):
         if isinstance(other, ConvexPolygon):
-            return hash(self) == hash(other)
+            # Two convex polygons are equal when they have the same vertices.
+            # Comparing the hashes is not enough: different vertices can have
+            # the same hash (in CPython hash(-1.0) == hash(-2.0))
+            return len(self.points) == len(other.points) and all(
+                point in other.points for point in self.points
+            )
         else:
             return False
 
